@@ -35,6 +35,12 @@
    or to outside cells; paths have at most one point (EmptyPath: no outline) or two points on an axis-parallel line.
    Anything else is skipped by the box functions and reported by [box_covered] = false (the driver prints it; the harness
    never sets the flag on such a library).  MAX_COUNTS and TOP_LEVEL have no such restriction.
+   Outside the model, seen on the real code (unit report): the max-counts pass runs BEFORE FlexPath::remove_overlapping_points
+   (called by to_oas / to_polygons later in the same call), so a spine with repeated points is counted with them on the first
+   call only (the model takes the cleaned spine, as OasisWrite.v does); for D <> 1 the explicit repetition kinds must stay on
+   the grid (oasis_write_repetition rounds DIFFERENCES of explicit offsets, lower_rep rounds every offset) and a lattice
+   spacing in (-1/2, 0) grid steps is written through the sign test on the unrounded value; an outside Cell object named like
+   a library cell shares its GeometryInfo cache entry (the cache is keyed by name; the trees here are keyed by object).
    Definitions only. *)
 From Coq Require Import QArith Qround.
 Require Import Base Generated OasisInt GdsReal OasisReal OasisPlist Table PropList OasisSpec OasisWrite.
